@@ -234,7 +234,7 @@ pub fn inst(u: &mut Unstructured, margin: i64) -> Result<Inst> {
 
 /// a second instant near/far from `a`: boundary-dense deltas
 pub fn inst_near(u: &mut Unstructured, a: Inst, margin: i64) -> Result<Inst> {
-    let k = u.below(16)?;
+    let k = u.below(18)?;
     let ai = a.i();
     let d: i128 = match k {
         0 => 0,
@@ -253,6 +253,20 @@ pub fn inst_near(u: &mut Unstructured, a: Inst, margin: i64) -> Result<Inst> {
         8 => {
             let unit = tl::unit_ns(u.below(7)? as u8);
             u.below(1000)? as i128 * unit + u.range_i64(-1, 1)? as i128
+        }
+        // a whole number of calendar cycles (400, 100, 28, 4 years; one year) apart, give or take a
+        // little: same month and day, time of day just before / after
+        16 | 17 => {
+            let cycle: i128 = *u.choose(&[146_097i128, 146_097, 36_524, 36_525, 10_227, 1_461, 365, 366])?;
+            let n = u.int_in_range(1..=3i64)? as i128;
+            let disp: i128 = match u.below(5)? {
+                0 => 0,
+                1 => u.range_i64(-2, 2)? as i128,
+                2 => u.range_i64(-43_200_000_000_000, 43_200_000_000_000)? as i128,
+                3 => u.range_i64(-1_000_000_000, 1_000_000_000)? as i128,
+                _ => u.range_i64(-2 * 86_400_000_000_000, 2 * 86_400_000_000_000)? as i128,
+            };
+            (cycle * n * tl::DAY_NS + disp).max(0)
         }
         // a *distance* at a power-of-two threshold of any unit (2^63 ns is 106 751 days and
         // 23:47:16.854775807: the band up to the next whole day, hour, minute matters as well)
